@@ -24,6 +24,8 @@ class Scen(CompScenario):
         self.top.add("dut", self.dut)
         for i in range(self.aw):
             self.caller(f"alloc{i}", self.dut.alloc[i])
+        if c.get("twin"):  # a second, independent caller of alloc way 0 (two units sharing one way)
+            self.caller("alloctwin", self.dut.alloc[0])
         for i in range(self.fw):
             self.caller(f"free{i}", self.dut.free[i])
         self.caller("peek", self.dut.peek)
@@ -52,6 +54,8 @@ class Scen(CompScenario):
         stim = {}
         for i in range(self.aw):
             stim[f"alloc{i}.en"] = int(rng.random() < pa)
+        if self.cfg.get("twin"):
+            stim["alloctwin.en"] = int(rng.random() < max(pa, 0.5))
         if kind == "gap" and self.aw > 1 and rng.random() < 0.7:
             # only higher ways request: way i must hand out an identifier although way 0 is idle
             lo = rng.randint(1, self.aw - 1)
@@ -128,6 +132,23 @@ class Scen(CompScenario):
                             f"({got})", port="alloc", way=i)
                 got[i] = ident
 
+        if self.cfg.get("twin"):
+            # the twin caller of way 0: whatever it is handed must be free and distinct from everything else
+            # returned in this cycle (it can only be served in a cycle where the other caller of way 0 is not)
+            if obs["alloctwin.done"]:
+                ident = obs.get("alloctwin.o.ident", 0)
+                self.expect(stim.get("alloctwin.en", 0) and nfree >= 1, "ran-when-not-callable",
+                            f"twin caller of alloc way 0 done with {nfree} free", port="alloc", way=0)
+                self.expect(ident < n and (F >> ident) & 1, "allocated-twice",
+                            f"twin caller of alloc way 0 got identifier {ident} which is not free (mask {F:0{n}b})", port="alloc", way=0)
+                self.expect(ident not in got.values(), "not-distinct",
+                            f"twin caller of alloc way 0 got identifier {ident}, also returned to another caller this cycle ({got})",
+                            port="alloc", way=0)
+                got["twin"] = ident
+                self.hit("twin_caller_served")
+            if stim.get("alloctwin.en", 0) and stim.get("alloc0.en", 0) and nfree >= 1:
+                self.hit("two_callers_contend_for_one_way")
+
         # free ways, peek, replace, clear: the statement gives no readiness -- a refusal is counted
         self.premise(not (stim.get("replace.en", 0) and stim.get("clear.en", 0)),
                      "replace and clear are not requested in one cycle")
@@ -193,7 +214,7 @@ class Scen(CompScenario):
         if pk and (got or done_free or rp or cl):
             self.hit("peek_with_update")
 
-        calls = (tuple(sorted(got)), len(done_free), pk, rp, cl)
+        calls = (tuple(sorted(map(str, got))), len(done_free), pk, rp, cl)
         self.visit((F, calls), nontrivial=bool(got or done_free or rp or cl) and
                    (nfree <= self.aw or nfree >= n - 1 or bool(rp or cl) or bool(refused)))
 
@@ -225,7 +246,7 @@ class Prop(PropBase):
     expected_cov = ["alloc_refused_none_free", "alloc_some_ways_refused", "alloc_all_ways_ran", "alloc_took_last_free",
                     "alloc_high_way_only", "alloc_and_free_same_cycle", "free_several_same_cycle", "ident_reused_after_free",
                     "alloc_after_replace", "alloc_from_partial_init", "replace_with_alloc", "replace_with_free",
-                    "clear_with_alloc", "clear_with_free", "peek_with_update"]
+                    "clear_with_alloc", "clear_with_free", "peek_with_update", "twin_caller_served", "two_callers_contend_for_one_way"]
     real = ["transactron.lib.allocators.PriorityEncoderAllocator",
             "transactron.utils.amaranth_ext.elaboratables.MultiPriorityEncoder", "transactron.lib.adapters.AdapterTrans",
             "TransactionManager + scheduler", "amaranth pysim"]
@@ -255,7 +276,7 @@ class Prop(PropBase):
             init = rng.getrandbits(n)
         cycles = rng.randint(80, 400 if big else 240)
         kinds = ["random", "random", "fill", "drain", "pingpong", "gap", "replace", "flush", "contend", "idle"]
-        return {"entries": n, "alloc_ways": aw, "free_ways": fw, "init": init, "cycles": cycles,
+        return {"entries": n, "alloc_ways": aw, "free_ways": fw, "init": init, "cycles": cycles, "twin": int(rng.random() < 0.3),
                 "sched": rng.choice(["eager", "eager", "rr"]), "plan": make_plan(rng, cycles, kinds)}
 
     def make(self, cfg):
@@ -266,7 +287,7 @@ class Prop(PropBase):
         return {"port": info.get("port"), "multiway": cfg["alloc_ways"] > 1}
 
     def cfg_signature(self, cfg):
-        return [cfg["entries"], cfg["alloc_ways"], cfg["free_ways"], cfg["init"], cfg["sched"]]
+        return [cfg["entries"], cfg["alloc_ways"], cfg["free_ways"], cfg["init"], cfg["sched"], cfg.get("twin", 0)]
 
     def shrink_cfg(self, cfg):
         # entries stay (recorded identifiers / masks refer to them); fewer ways, simpler init, eager scheduler
